@@ -151,6 +151,26 @@ def judge(branches: List[Tuple[str, Optional[int]]], length: int, addr: int, mn:
     return out
 
 
+_LAST: List[Any] = [None, None]
+
+
+def _decode_facts(data: bytes, addr: int) -> Optional[Tuple[int, List[Tuple[str, Optional[int]]], List[TP.Tok]]]:
+    """(length, [(branch type name, target)], tokens) from get_instruction_info + the rendered text; the last
+    result is memoised because the grid runs the same bytes/address under four flag values."""
+    key = (data, addr)
+    if _LAST[0] == key:
+        return _LAST[1]
+    info = G.arch().get_instruction_info(data, addr)
+    out = None
+    if info is not None:
+        tk = TP.tokens(data, addr)
+        if tk is not None:
+            out = (int(info.length),
+                   [(getattr(b.type, "name", str(b.type)), b.target) for b in info.branches], tk[0])
+    _LAST[0], _LAST[1] = key, out
+    return out
+
+
 def exec_single(case: Dict[str, Any]) -> Dict[str, Any]:
     """Decode (info + text) from the bytes the emulator will fetch, execute once, judge."""
     addr = int(case["regs"]["PC"]) & M20
@@ -158,18 +178,12 @@ def exec_single(case: Dict[str, Any]) -> Dict[str, Any]:
     mem0 = pycore.HashMemory(int(case.get("seed", 0)), over)
     data = bytes(mem0.peek(addr + i) for i in range(16))
     res: Dict[str, Any] = {"addr": addr, "viol": [], "labels": []}
-    info = G.arch().get_instruction_info(data, addr)
-    if info is None:
+    dec = _decode_facts(data, addr)
+    if dec is None:
         res["rejected"] = True
         return res
-    length = int(info.length)
-    tk = TP.tokens(data, addr)
-    if tk is None:
-        res["rejected"] = True
-        return res
-    toks, _ = tk
+    length, branches, toks = dec
     mn = TP.mnemonic(toks)
-    branches = [(getattr(b.type, "name", str(b.type)), b.target) for b in info.branches]
     pcase = {"regs": case["regs"], "seed": case.get("seed", 0), "mem": case.get("mem", []), "steps": 1,
              "power": "running"}
     emu, mem = pycore.make_emulator(pcase)
@@ -351,6 +365,10 @@ def _shard_other(task: Tuple[int, int, str, int]) -> Report:
         st = S.Stream(seed, 0xC05B, shard, j)
         tk = TP.tokens(code + G.NOP_PAD)
         mn = TP.mnemonic(tk[0]) if tk else ""
+        if mn.startswith("???") or not mn:
+            # DESIGN 2.3: the decoder's "unknown instruction" placeholders (20, BF, ...) are not valid encodings
+            rep.labels["skipped:unknown-opcode-placeholder"] += 1
+            continue
         ln = len(code)
         sel = st.below(16)
         if sel < 10:
@@ -401,6 +419,11 @@ def _shard_pair(task: Tuple[int, int, str, int]) -> Report:
     return rep
 
 
+def _task(task: Tuple[str, Any]) -> Report:
+    kind, args = task
+    return {"single": _shard_single, "other": _shard_other, "pair": _shard_pair}[kind](args)
+
+
 # ------------------------------------------------------------------------------------------------
 # entry points
 # ------------------------------------------------------------------------------------------------
@@ -414,9 +437,8 @@ def run(ctx: Ctx) -> Report:
     n_pair = ctx.pick(16, 64)
     per_pair = ctx.pick(220, 420)
     tasks_p = [(i, ctx.seed, ctx.tier, per_pair) for i in range(n_pair)]
-    reports = ctx.pmap(_shard_pair, tasks_p)
-    reports += ctx.pmap(_shard_single, tasks_s)
-    reports += ctx.pmap(_shard_other, tasks_o)
+    tasks = [("other", t) for t in tasks_o] + [("single", t) for t in reversed(tasks_s)] + [("pair", t) for t in tasks_p]
+    reports = ctx.pmap(_task, tasks)
     rep = ctx.merge_reports(reports)
     rep.rule = RULE
     rep.assumptions = list(ASSUMPTIONS)
